@@ -162,7 +162,7 @@ def run_case(cid, rng, workdir):
     if kw is None:
         res["status"] = "rejected"
         return res
-    kw["bfudge"] = rng.choice([0.1, 0.4, 0.4, 0.7, 1.0])
+    kw["bfudge"] = rng.choice([0.1, 0.4, 0.4, 0.7, 1.0, 1.5])          # factors above one enlarge the template
     if rng.random() < 0.35:
         # user supplied residue sizes (build file [ volumes ]): templates are still generated and must be centred
         with open(os.path.join(workdir, "vol.bld"), "w") as fh:
